@@ -1,6 +1,7 @@
 """C17 - decoding arbitrary text never crashes and only yields re-encodable problems"""
 import json
 import multiprocessing as mp
+from harness.par import RobustPool
 
 from harness.common import Check, NPROC, write_ndjson
 from harness.tlc import run_tlc, MachineryError
@@ -25,7 +26,7 @@ def run(tier, seed):
     res = run_tlc("MC_Fuzz", "MC_Fuzz", workdir=chk.dir, env={"MAXLEN": maxlen}, timeout=1800)
     chk.add_tlc(res)
     texts = sorted({fuzz.text_of(r["s"]) for r in res.records})
-    if len(texts) != sum(11 ** k for k in range(maxlen + 1)):
+    if len(texts) != sum(12 ** k for k in range(maxlen + 1)):
         raise MachineryError(f"expected all strings up to length {maxlen}, got {len(texts)}")
     url_sizes = [(1, 1), (2, 2), (3, 1), (1, 3), (2, 3)] if tier == "quick" else [(h, w) for h in (1, 2, 3) for w in (1, 2, 3)]
     comb_sizes = [(1, 1), (2, 2), (0, 2), (1, 3)] if tier == "quick" else [(h, w) for h in (0, 1, 2, 3) for w in (0, 1, 2, 3)]
@@ -53,8 +54,14 @@ def run(tier, seed):
             jobs.append(("url", name, h, w, [zero_border(h, w), zero_border(h, w) + "g" * 5], None))
     for name in ("nurikabe", "sudoku", "slither"):
         jobs.append(("url", name, 40, 40, ["z" * 80, "z" * 79 + "5", "5" * 1600], None))
-    with mp.get_context("fork").Pool(NPROC) as pool:
-        outs = pool.map(fuzz.job, jobs, chunksize=4)
+    def died(j):
+        # the worker process itself was killed while decoding this batch (stack overflow / segmentation fault): the
+        # worst kind of crash; reported for the batch (its first text is shown), judged by Trace_Fuzz like any raise
+        return {"kind": j[0], "decoder": j[1], "h": j[2], "w": j[3], "n": len(j[4]), "n_none": 0, "n_valueerror": 0, "n_raised": 1,
+                "outs": [{"k": 0, "outcome": "raised", "exc": "InterpreterDiedSomewhereInThisBatch", "dims_ok": True,
+                          "reencode": "skipped", "exc2": "", "same": True}]}
+    with RobustPool(NPROC) as pool:
+        outs = pool.map(fuzz.job, jobs, chunksize=4, on_death=died)
     recs = []
     for t, (o, j) in enumerate(zip(outs, jobs)):
         o["t"] = t
@@ -85,10 +92,10 @@ def run(tier, seed):
     chk.extra["inputs_that_decoded_to_a_problem"] = problems
     chk.sample({"decoder": "nurikabe", "declared": [2, 2], "text": "5g-0f"[:4], "note": "one of the enumerated bodies"})
     chk.sample({"frame_mutilations": frame_mutilations("nurikabe")[:6]})
-    chk.rule = ("case = (decoder, declared size, text); texts = ALL strings up to the length bound over the 11-symbol alphabet; "
+    chk.rule = ("case = (decoder, declared size, text); texts = ALL strings up to the length bound over the 12-symbol alphabet; "
                 "non-trivial counted = inputs that decode to a problem (re-encoded and re-decoded) or raise")
     chk.exhaustive = True
-    chk.extra["space"] = f"all {len(texts)} strings of length <= {maxlen} over 0 1 5 f g z - + . / U+0663; 9 URL decoders + compass x board sizes; 15 library combinators x sizes (incl. zero) and every offset for strings <= 3; URL-frame mutilations; 60x60 / 1x400 / 400x1 boards"
+    chk.extra["space"] = f"all {len(texts)} strings of length <= {maxlen} over 0 1 5 f g z - + . / U+0663 A; 9 URL decoders + compass x board sizes; 15 library combinators x sizes (incl. zero) and every offset for strings <= 3; URL-frame mutilations; 60x60 / 1x400 / 400x1 boards"
     chk.assumptions = ["'arbitrary Unicode' is represented by one non-ASCII decimal digit in the alphabet and two non-ASCII letters in the frame mutilations",
                        "re-encoding is required only for boards with at least one cell; None and ValueError are classified by the harness (except ValueError), every other outcome is judged by TLC"]
     return chk.finish()
